@@ -100,13 +100,14 @@ func rulesC15(c *Ctx) {
 	if fn := c.needFn("C15.price", pkStakingAPI+".(*SharePool).sharesForStake"); fn != nil {
 		var computed, oneToOne []ssa.Instruction
 		for _, r := range nonErrorReturns(fn) {
-			v := r.Results[0]
+			setIPContext(fn)
+			v, ofn, use := throughHelper(r.Results[0], fn, r)
 			call, ok := v.(*ssa.Call)
 			if !ok || calleeNameCommon(&call.Call) != "common/quantity.(*Quantity).Clone" || vstr(call.Call.Args[0]) != "param:amount" {
 				c.Fail("C15.price", fname(fn)+":result derives from a clone of the amount", c.P.InstrPos(r), "a successful result that is not derived from amount.Clone()")
 				continue
 			}
-			ops, straight := quantityOps(fn, v, r)
+			ops, straight := quantityOps(ofn, v, use)
 			switch {
 			case len(ops) == 0:
 				oneToOne = append(oneToOne, r)
@@ -127,7 +128,8 @@ func rulesC15(c *Ctx) {
 	if fn := c.needFn("C15.price", pkStakingAPI+".(*SharePool).StakeForShares"); fn != nil {
 		var computed, zero []ssa.Instruction
 		for _, r := range nonErrorReturns(fn) {
-			v := r.Results[0]
+			setIPContext(fn)
+			v, ofn, use := throughHelper(r.Results[0], fn, r)
 			call, ok := v.(*ssa.Call)
 			if !ok {
 				c.Fail("C15.price", fname(fn)+":result shape", c.P.InstrPos(r), "unexpected result value "+vstrShort(v))
@@ -135,13 +137,13 @@ func rulesC15(c *Ctx) {
 			}
 			switch calleeNameCommon(&call.Call) {
 			case "common/quantity.NewQuantity":
-				if ops, _ := quantityOps(fn, v, r); len(ops) == 0 {
+				if ops, _ := quantityOps(ofn, v, use); len(ops) == 0 {
 					zero = append(zero, r)
 					continue
 				}
 				c.Fail("C15.price", fname(fn)+":zero result", c.P.InstrPos(r), "the zero result is modified before being returned")
 			case "common/quantity.(*Quantity).Clone":
-				ops, straight := quantityOps(fn, v, r)
+				ops, straight := quantityOps(ofn, v, use)
 				if vstr(call.Call.Args[0]) == "param:amount" && straight && len(ops) == 2 && ops[0] == "Mul(param:p.Balance)" && ops[1] == "Quo(param:p.TotalShares)" {
 					computed = append(computed, r)
 					continue
@@ -458,4 +460,36 @@ func rulesC15(c *Ctx) {
 		}
 		c.Check(okK, "C15.debond", fname(fn)+":RemoveFromDebondingQueue(entry key)", c.P.Pos(fn.Pos()), "the queue entry removed is the one just paid", "the queue entry removed is not keyed by the paid entry's (epoch, delegator, escrow)")
 	}
+}
+
+// throughHelper: when the value a function returns is the result of a new helper (ip.go) — `return mulQuo(amount, a,
+// b)` — the value is what the helper returns on its only success exit, looked at inside the helper (whose parameters
+// render as the arguments of this call while fn is the family in view). Otherwise the value itself.
+func throughHelper(v ssa.Value, fn *ssa.Function, use ssa.Instruction) (ssa.Value, *ssa.Function, ssa.Instruction) {
+	idx := 0
+	var call *ssa.Call
+	switch x := v.(type) {
+	case *ssa.Extract:
+		call, _ = x.Tuple.(*ssa.Call)
+		idx = x.Index
+	case *ssa.Call:
+		call = x
+	}
+	if call == nil {
+		return v, fn, use
+	}
+	h := helperCallee(call)
+	if h == nil {
+		return v, fn, use
+	}
+	var rets []*ssa.Return
+	for _, r := range nonErrorReturns(h) {
+		if idx < len(r.Results) {
+			rets = append(rets, r)
+		}
+	}
+	if len(rets) != 1 {
+		return v, fn, use
+	}
+	return rets[0].Results[idx], h, rets[0]
 }
